@@ -37,6 +37,9 @@ func genHashBytes(t *rapid.T, label string) []byte {
 }
 
 func genExt(t *rapid.T, label string) string {
+	if rapid.IntRange(0, 2).Draw(t, label+"common") == 0 {
+		return rapid.SampledFrom([]string{"rdf", "pdf", "txt", "csv", "json", "jsonld", "ttl", "nq", "xml", "html", "png", "zip", "gz", "0a", "zzzzzz"}).Draw(t, label+"c")
+	}
 	return rapid.StringMatching(`[a-z0-9]{2,6}`).Draw(t, label)
 }
 
@@ -280,6 +283,8 @@ func TestC15(t *testing.T) {
 			h2 := nearVariant(t, h1)
 			key, err := checkPair(h1, h2)
 			c15Report(t, key, err, c15Case{Kind: "pair", H1: h1, H2: h2})
+			key, err = checkHash(h2)
+			c15Report(t, key, err, c15Case{Kind: "hash", H1: h2})
 			recordPure("C15", h1.Validate() == nil && h2.Validate() == nil && !chEqual(h1, h2), "pair|"+h1.String()+"|"+h2.String(), c15Case{Kind: "pair", H1: h1, H2: h2})
 		default:
 			s := genIRIString(t)
